@@ -15,7 +15,7 @@ R = {
  "C13-d": (True, "", "stabilizer() with base_point != 0 on a table of a non-normal subgroup"),
  "C14-d": (False, "C14 T4-elimination-ranges (row loops end at mat.len(), column loops at mat[0].len())", "fewer relators than generators with the pivot in a column beyond the number of rows: <a,b | b^3> gives [0,0]"),
  "C15-d": (False, "C15 T9-flattens-all (every cone word has EXACTLY its degree as order; degree() shape)", "non-euclidean symbols with a 4- or 6-fold cone that is only partly unwound while the subgroup still abelianises to Z^3"),
- "C16-d": (False, "NOT DETECTED, by design: the change is inside one rewriting move (split_and_glue enumerates edge-mode candidates per [0,2]-orbit instead of per [0]-orbit); whether the coarser representative set is admissible depends on whether the loop body is symmetric under op 2, which is a semantic property of the move that the partial C16 claim (driver discipline) does not decide; freezing the index set would also reject valid optimisations of symmetric loops", "euclidean symbols whose simplification needs the dropped half of the cut candidates: 9 of 299 symbols with up to 6 chambers (513.5 in the identity numbering)"),
+ "C16-d": (False, "first left unreported as not decidable by shape; after a second, independent seed (C17-e) made the same kind of change at the same site, T15 representatives-not-coarser was added (frozen table of orbit_reps index sets, strict supersets reported) with the stated caveat that a coarser set is a valid optimisation when the loop body is symmetric under the added operation", "euclidean symbols whose simplification needs the dropped half of the cut candidates: 9 of 299 symbols with up to 6 chambers (513.5 in the identity numbering)"),
  "C17-d": (False, "C17 T4-invariant-key (orientation flag 2/1/0 as a decision table over is_oriented / is_weakly_oriented; order of the key's parts)", "symbols without mirrors that are not orientable (glide reflections / roto-inversions only): 7 of 478 euclidean symbols up to 5 chambers"),
  "C18-d": (True, "", "wide matrices whose leading rows x rows block is rank-deficient, e.g. [[0,0,1]]"),
  "C19-d": (True, "", "an antiparallel edge pair used by one augmenting path and crossed by a later one (undirected edge cuts): cut one edge too large"),
